@@ -40,8 +40,8 @@ func DrawDAG(r *rng.R) *Entry {
 		out := fmt.Sprintf("v%d", i)
 		src := vals[r.Intn(len(vals))]
 		var n mb.Node
-		kind := r.Intn(10)
-		if nn > 30 && kind >= 3 && kind != 9 {
+		kind := r.Intn(11)
+		if nn > 30 && kind >= 3 && kind != 10 {
 			kind = r.Intn(3)
 		}
 		switch kind {
@@ -50,7 +50,11 @@ func DrawDAG(r *rng.R) *Entry {
 		case 1:
 			n = mb.Node{Op: pick(r, "Add", "Sub", "Mul"), In: []string{src, newWeight(pick(r, []int{3}, []int{1, 3}, []int{1}))}}
 		case 2:
-			n = mb.Node{Op: pick(r, "Add", "Mul", "Sub"), In: []string{src, vals[r.Intn(len(vals))]}}
+			other := vals[r.Intn(len(vals))]
+			if r.Chance(1, 3) {
+				other = src // x*x, x+x: one node reading the same tensor in two slots
+			}
+			n = mb.Node{Op: pick(r, "Add", "Mul", "Sub"), In: []string{src, other}}
 		case 3:
 			n = mb.Node{Op: "MatMul", In: []string{src, newWeight([]int{3, 3})}}
 		case 4:
@@ -88,6 +92,13 @@ func DrawDAG(r *rng.R) *Entry {
 			m.Inits = append(m.Inits, mb.Init{Name: bb, V: RandF32(r, []int{1}, -1, 1), Raw: r.Bool()})
 			m.Nodes = append(m.Nodes, mb.Node{Op: "Conv", In: []string{mid, k, bb}, Out: []string{mid2}})
 			n = mb.Node{Op: "Squeeze", In: []string{mid2, ax}}
+		case 9:
+			// positional-embedding idiom: a [1,3] weight expanded to the run-time shape of an activation and added to it
+			// (for batch 1 the expansion is a no-op and Expand hands the weight itself on)
+			shp, ex := out+"_shape", out+"_pos"
+			m.Nodes = append(m.Nodes, mb.Node{Op: "Shape", In: []string{src}, Out: []string{shp}})
+			m.Nodes = append(m.Nodes, mb.Node{Op: "Expand", In: []string{newWeight([]int{1, 3}), shp}, Out: []string{ex}})
+			n = mb.Node{Op: pick(r, "Add", "Mul"), In: pick(r, []string{ex, src}, []string{src, ex})}
 		default:
 			c := fmt.Sprintf("c%d", i)
 			m.Nodes = append(m.Nodes, mb.Node{Op: "Constant", Out: []string{c}, Attrs: []mb.Attr{mb.AFloats("value_floats", float32(r.Range(-4, 4))/2, 1, float32(r.Range(-4, 4))/2)}})
